@@ -183,12 +183,8 @@ pub fn run_batch<K: Check>(check: &K, cfg: &BatchCfg) -> BatchResult<K::Case> {
         if a.fps.len() >= FP_CAP || a.fps_nt.len() >= FP_CAP {
             res.fingerprint_cap_hit = true;
         }
-        if fps.len() < 4 * FP_CAP {
-            fps.extend(a.fps);
-        }
-        if fps_nt.len() < 4 * FP_CAP {
-            fps_nt.extend(a.fps_nt);
-        }
+        fps.extend(a.fps);
+        fps_nt.extend(a.fps_nt);
         if let Some(f) = a.found {
             if res.found.as_ref().map_or(true, |g| f.run < g.run) {
                 res.found = Some(f);
